@@ -1826,7 +1826,16 @@ def install(eng):
 
     def ext_err(msg):
         return lambda eng, st: new_error(eng, st, msg)
+    # primary result codes of go-sqlite3 (package-level variables of an external package)
+    for nm, v in (("ErrError", 1), ("ErrBusy", 5), ("ErrLocked", 6), ("ErrReadonly", 8), ("ErrInterrupt", 9), ("ErrIoErr", 10), ("ErrFull", 13),
+                  ("ErrConstraint", 19), ("ErrMismatch", 20), ("ErrMisuse", 21)):
+        eng.external_globals["github.com/mattn/go-sqlite3." + nm] = (lambda v: (lambda e, st: v))(v)
+    for nm, v in (("ErrConstraintPrimaryKey", 1555), ("ErrConstraintUnique", 2067), ("ErrConstraintForeignKey", 787), ("ErrConstraintTrigger", 1811),
+                  ("ErrConstraintNotNull", 1299), ("ErrConstraintCheck", 275)):
+        eng.external_globals["github.com/mattn/go-sqlite3." + nm] = (lambda v: (lambda e, st: v))(v)
     eng.external_globals.update({
+        "github.com/ethereum/go-ethereum.NotFound": ext_err("not found"),
+        "net/http.ErrServerClosed": ext_err("http: Server closed"),
         "database/sql.ErrNoRows": ext_err("sql: no rows in result set"),
         "database/sql.ErrTxDone": ext_err("sql: transaction has already been committed or rolled back"),
         "database/sql.ErrConnDone": ext_err("sql: connection is already closed"),
